@@ -64,26 +64,39 @@ def parse_log(text):
     return res
 
 
-def run_harnesses(harnesses, timeout_s, tag):
-    """harnesses: list of qualified names. One cargo-kani invocation, -j NCPU. returns parsed dict + log path"""
-    _prep()
-    log = os.path.join(workdir('logs'), 'kani-%s-%d.log' % (tag, os.getpid()))
-    jobs = max(1, min(NCPU, len(harnesses)))
-    cmd = ['cargo', 'kani', '-Z', 'stubbing', '-Z', 'unstable-options', '--harness-timeout', '%ds' % timeout_s,
-           '--target-dir', os.path.join(WORK, 'kani-target'), '--exact']
-    if jobs > 1:
-        cmd += ['-j', str(jobs), '--output-format', 'terse']
-    else:
-        cmd += ['--output-format', 'terse']
-    for h in harnesses:
-        cmd += ['--harness', h]
-    with Lock('kani-build'):
-        pass  # cargo itself serialises on the target dir; the lock only orders first-time builds
-    rc, secs = run(cmd, log, timeout=timeout_s * (2 + len(harnesses) // jobs) + 600, cwd=KDIR)
+def _one(h, timeout_s, tag, mem_gb):
+    log = os.path.join(workdir('logs'), 'kani-%s-%s-%d.log' % (tag, h.replace(':', '_'), os.getpid()))
+    cmd = ['cargo', 'kani', '-Z', 'stubbing', '--output-format', 'terse',
+           '--target-dir', os.path.join(WORK, 'kani-target'), '--exact', '--harness', h]
+    rc, secs = run(cmd, log, timeout=timeout_s, cwd=KDIR, mem_gb=mem_gb)
     text = open(log, errors='replace').read()
-    res = parse_log(text)
-    build_failed = ('error: could not compile' in text) or ('error[E' in text)
-    return res, log, build_failed, rc
+    res = parse_log(text).get(h)
+    if rc == 'timeout':
+        res = {'status': 'TIMEOUT', 'seconds': secs, 'failed': [], 'covers': None}
+    return h, res, log, text
+
+
+def run_harnesses(harnesses, timeout_s, tag, pool=None, mem_gb=14):
+    """one `cargo kani --exact --harness H` process per harness (own driver, own log), `pool` at a time.
+    (`cargo kani -j N` keeps every CBMC trace in one driver process: 15-20 GB RSS, OOM-killed here.)"""
+    from concurrent.futures import ThreadPoolExecutor
+    _prep()
+    blog = os.path.join(workdir('logs'), 'kani-build-%s-%d.log' % (tag, os.getpid()))
+    with Lock('kani-build'):
+        rc, _ = run(['cargo', 'kani', '-Z', 'stubbing', '--only-codegen', '--target-dir', os.path.join(WORK, 'kani-target')],
+                    blog, timeout=1800, cwd=KDIR)
+    btext = open(blog, errors='replace').read()
+    build_failed = rc != 0 or ('error: could not compile' in btext) or ('error[E' in btext)
+    res = {}
+    if build_failed:
+        return res, blog, True, rc
+    pool = pool or max(1, min(NCPU - 2, 12))
+    with ThreadPoolExecutor(max_workers=pool) as ex:
+        for h, r, log, text in ex.map(lambda h: _one(h, timeout_s, tag, mem_gb), harnesses):
+            if r is not None:
+                r['log'] = log
+                res[h] = r
+    return res, blog, False, 0
 
 
 def concrete_values(harness, timeout_s):
@@ -134,7 +147,7 @@ def native_replay(flatname, vals):
     return out
 
 
-def decide(pid, specs, tier, timeout_s=None):
+def decide(pid, specs, tier, timeout_s=None, pool=None):
     """specs: list of dict(harness=qualified, statement, functions, bounds, assumptions, [known_ok]).
     Returns list of Obl with verdicts; violations are replayed natively before being reported."""
     timeout_s = timeout_s or (900 if tier == 'quick' else 3600)
@@ -155,7 +168,7 @@ def decide(pid, specs, tier, timeout_s=None):
             todo.append(o)
         obls.append(o)
     if todo:
-        res, log, build_failed, rc = run_harnesses([o.harness for o in todo], timeout_s, pid)
+        res, log, build_failed, rc = run_harnesses([o.harness for o in todo], timeout_s, pid, pool=pool)
         for o in todo:
             o.queries = 1
             r = res.get(o.harness)
